@@ -30,6 +30,8 @@ def main():
     args = ap.parse_args()
     pid = args.pid
     out_dir = os.path.join(ROOT, "replays", pid)
+    kf = json.load(open(os.path.join(ROOT, "known_findings.json")))
+    known = {e.get("signature") for e in kf.get("findings", []) if e.get("property") == pid and e.get("status") == "known"}
     for patch in sorted(glob.glob(os.path.join(ROOT, "seeded", pid + "*", "patch.diff"))):
         name = os.path.basename(os.path.dirname(patch))
         target = os.path.join(out_dir, f"seeded-{name}.json")
@@ -56,6 +58,8 @@ def main():
                 env = dict(os.environ, VERIF_SHRINK_S="20", VERIF_OUT_DIR=out, VERIF_NO_REPLAYS="1", VERIF_SEED=seed)
                 c = subprocess.run([PY, os.path.join(ROOT, "run_check.py"), pid, "--tier", "quick", "--repo", copy], cwd=ROOT, env=env, capture_output=True, text=True)
                 found = sorted(glob.glob(os.path.join(out, "found", pid, "*.json")))
+                # (witnesses of known findings are written there too: only a case whose signature is not a listed finding counts)
+                found = [f for f in found if json.load(open(f)).get("signature") not in known]
                 if c.returncode == 1 and found:
                     d = json.load(open(found[0]))
                     if d.get("origin", "generated") != "generated":
